@@ -69,6 +69,8 @@ class Run:
 
     def check_floors(self):
         from .model import AnalysisError
+        if self.failures():
+            return   # a violation is being reported; dependent instances may legitimately be missing
         for rule, n in self.floors.items():
             got = self.rule_counts.get(rule, 0)
             if any(o["rule"] == rule and not o["ok"] for o in self.obligations):
